@@ -79,8 +79,9 @@ func runC20(c *Ctx) {
 	var kdcs []*env.KDC
 	var kd []string
 	answering := 0
+	deaf := 0
 	for _, addr := range realms[realmName] {
-		tb := []string{"reply-close", "reply-open", "partial", "partial-close", "close", "silent", "refuse", "blackhole", "drip"}[c.T.Choose(9)]
+		tb := []string{"reply-close", "reply-open", "partial", "partial-close", "close", "silent", "refuse", "blackhole", "drip", "reply-krb-error", "garbage", "deaf", "close-then-silent"}[c.T.Choose(13)]
 		ub := []string{"reply-open", "silent", "refuse", "refuse"}[c.T.Choose(4)]
 		if tb == "blackhole" {
 			// connection attempts get no answer at all (packets dropped on the way)
@@ -88,6 +89,18 @@ func runC20(c *Ctx) {
 		} else if tb != "refuse" {
 			rep := c.T.Bytes(1+c.T.Choose(2000), 0x71)
 			reply := append(binary.BigEndian.AppendUint32(nil, uint32(len(rep))), rep...)
+			switch tb {
+			case "reply-krb-error":
+				// the KDC's answer is an error message (service unavailable, pre-authentication
+				// required, ...): it is the KDC's reply all the same
+				rep = codec.KRBError([]byte{29, 25, 6, 24, 13}[c.T.Choose(5)], realmName)
+				reply = append(binary.BigEndian.AppendUint32(nil, uint32(len(rep))), rep...)
+			case "garbage":
+				// not a framed reply: a length prefix with the top bit set, a zero length, text
+				reply = [][]byte{append([]byte{0x80 | byte(c.T.Choose(128)), 0xff, 0x01, 0x02}, rep...), []byte("HTTP/1.1 400 Bad Request\r\n\r\n"), append([]byte{0xff, 0xff, 0xff, 0xf0}, rep...)}[c.T.Choose(3)]
+			case "deaf":
+				deaf++
+			}
 			kd1 := c.W.AddKDC("tcp", addr, tb, reply)
 			// (a dripped reply takes 6-40 s in all: longer than the proxy waits)
 			kd1.DripGap = time.Duration(1+c.T.Choose(4)) * time.Second
@@ -225,7 +238,7 @@ func runC20(c *Ctx) {
 	}
 	// the proxy's own timeout is 5 s per step; connection attempts that get no answer are
 	// made one after the other
-	bound := 15*time.Second + time.Duration(len(blackholed))*5*time.Second
+	bound := 15*time.Second + time.Duration(len(blackholed)+deaf)*5*time.Second
 	if took > bound {
 		c.S.Fail("C20", "slow-response", "%s: response after %v (bound %v)", sample, took, bound)
 		return
@@ -289,7 +302,7 @@ func runC20(c *Ctx) {
 		c.S.Fail("C20", "reply-not-kdc-proxy-message", "%s: body is not a KDC-PROXY-MESSAGE: %v", sample, err)
 		return
 	}
-	matched := false
+	matched, gotIt, proto := false, false, ""
 	for _, k := range kdcs {
 		if !(strings.HasPrefix(k.Behave, "reply")) {
 			continue
@@ -303,18 +316,18 @@ func runC20(c *Ctx) {
 			want = append(binary.BigEndian.AppendUint32(nil, uint32(len(want))), want...)
 		}
 		if bytes.Equal(msg, want) {
-			matched = true
-			got := false
+			// (several KDCs may give the same reply: one of them must have been asked properly)
+			matched, proto = true, k.Proto
 			for _, g := range k.Got {
 				if bytes.Equal(g, sentWant) {
-					got = true
+					gotIt = true
 				}
 			}
-			if !got {
-				c.S.Fail("C20", "request-altered:"+k.Proto, "%s: the KDC whose reply was returned did not receive exactly the embedded message (%d bytes expected over %s)", sample, len(sentWant), k.Proto)
-				return
-			}
 		}
+	}
+	if matched && !gotIt {
+		c.S.Fail("C20", "request-altered:"+proto, "%s: no KDC whose reply was returned received exactly the embedded message (over %s)", sample, proto)
+		return
 	}
 	if !matched {
 		c.S.Fail("C20", "reply-altered", "%s: the returned kerb-message (%d bytes %s) is not the reply of any answering KDC", sample, len(msg), short(msg))
